@@ -33,6 +33,11 @@ Expected(e) ==
                             IN FlatM(MScale(k, AdNum(mi)))             \* times N^2 d
     [] e.fn = "delta2tr" -> FlatM(Delta2Tr(e.a))
     [] e.fn = "tr2delta" -> Tr2DeltaNum(Unflat(e.a, 4), 1)
+    \* vector helpers on vectors of length 1, 3, 6 whose norm e.n is an integer (checked here, not trusted)
+    [] e.fn = "normsq"   -> << DotN(e.a, e.a) >>
+    [] e.fn = "norm"     -> IF e.n >= 0 /\ e.n * e.n = DotN(e.a, e.a) THEN << e.n >> ELSE << >>
+    [] e.fn = "unitvec"  -> IF e.n > 0 /\ e.n * e.n = DotN(e.a, e.a) THEN e.a ELSE << >>       \* times |a|
+    [] e.fn = "unitvec_norm" -> IF e.n > 0 /\ e.n * e.n = DotN(e.a, e.a) THEN e.a \o << e.n >> ELSE << >>
     [] OTHER             -> << >>
 
 Init == l = 1 /\ bad = <<>>
